@@ -245,7 +245,7 @@ def check(run, prefix="O5"):
     for c, key in K.ordinal_keys(prog.callers_of(VOTOR + "Votor::set_timeouts"), lambda c: "%s|set_timeouts" % fshort(c.body.defpath)):
         t = c.body.operand_term(c.args[1])
         ok = K.mentions_call(t, "first_slot_in_window") or (K.peel(t)[0] == "call" and K.peel(t)[1].endswith("Slot::new") and K.const_eval(K.peel(t)[2][0]) == 0) or \
-            K.mentions(t, lambda x: x[0] == "variant" and x[2] == "ParentReady")
+            K.mentions(t, lambda x: x[0] == "variant" and x[2] == "ParentReady") or D.vclass(prog, c.body, t) == ["newtype", "types::slot::Slot", 0]
         o.check(bool(ok), key + "|window-start", "set_timeouts is called with a window-start slot (first_slot_in_window(), a ParentReady slot, or slot 0)", c.span, {"arg": mir.show(t)[:100]})
 
     # ------------------------------------------------------------------ O5.8 signing identity
